@@ -9,6 +9,37 @@ sys.path.insert(0, os.path.dirname(os.path.abspath(__file__)))
 import common
 
 
+def replay(a, mod):
+    """Re-run the recorded failing input.  Property modules that can rebuild the single input do so (exit 1 =
+    it still fails, 0 = it passes now); otherwise the whole run is repeated with the recorded seed and tier
+    (all inputs derive from them) and the recorded clause is looked for among the violations found."""
+    import json
+    rec = json.load(open(a.replay))
+    rc = mod.replay(a.replay)
+    if rc == 0 or "_run" not in rec:
+        return rc
+    key = rec.get("clause") or rec.get("what")
+    os.environ["VERIF_SEED"] = str(rec["_run"]["seed"])
+    ctx = common.Ctx(a.pid, rec["_run"]["tier"], mod.LEVEL)
+    ctx.replaying = True
+    try:
+        mod.run(ctx)
+    except Exception:
+        traceback.print_exc()
+        return 2
+    again = []
+    for path, _ in ctx.violations:
+        try:
+            r2 = json.load(open(path))
+        except Exception:
+            continue
+        if (r2.get("clause") or r2.get("what")) == key:
+            again.append(path)
+    print(f"replay: run repeated with seed={rec['_run']['seed']} tier={rec['_run']['tier']}; "
+          f"recorded clause {'REPRODUCED' if again else 'not reproduced'}: {key}")
+    return 1 if again else 0
+
+
 def main():
     ap = argparse.ArgumentParser()
     ap.add_argument("pid")
@@ -18,7 +49,7 @@ def main():
     common.setup_repo_path()
     mod = importlib.import_module(f"props.{a.pid.lower()}")
     if a.replay:
-        sys.exit(mod.replay(a.replay))
+        sys.exit(replay(a, mod))
     ctx = common.Ctx(a.pid, a.tier, mod.LEVEL)
     try:
         mod.run(ctx)
